@@ -1,2 +1,3 @@
 -- root of the library: everything that `lake build` must check
 import PybropsModel.Drv.All
+import PybropsModel.Props.C19
